@@ -165,6 +165,94 @@ def rand_planar(rng, w, h):
     return b
 
 
+def systematic_planar():
+    """every segment form of the planar codec at least once, independent of any random seed: every long run 16..47
+    (alone, and behind a raw segment), every short run 3..15 behind 0..15 raw bytes, on the first scanline and on a
+    delta scanline (second row)"""
+    out = []
+    def seg(craw, nrun, val=0x21):
+        if nrun >= 32: return [((nrun - 32) << 4) | 2]
+        if nrun >= 16: return [((nrun - 16) << 4) | 1]
+        return [(craw << 4) | nrun] + [(val + 3 * i) % 256 for i in range(craw)]
+    def image(rows_of_segments, w, h):
+        d = [0x10]
+        for _plane in range(4):
+            for r in range(h):
+                for s in rows_of_segments[r]:
+                    d += s
+        return {"w": w, "h": h, "bpp": 32, "comp": True, "data": d}
+    for L in range(16, 48):
+        out.append(image([[seg(0, L)]], L, 1))                                      # a long run alone
+        out.append(image([[seg(2, 0), seg(0, L)]], L + 2, 1))                       # behind two raw bytes
+        out.append(image([[seg(1, 0), seg(0, L)], [seg(0, L), seg(1, 0, 0xfe)]], L + 1, 2))   # and on a delta scanline
+    for craw in range(0, 16):
+        for nrun in (0, 3, 4, 8, 15):
+            if craw + nrun == 0:
+                continue
+            out.append(image([[seg(craw, nrun)]], craw + nrun, 1))
+            out.append(image([[seg(craw, nrun)], [seg(craw, nrun, 0x80)]], craw + nrun, 2))
+    return out
+
+
+def systematic_rle16():
+    """every order kind in every header form with run lengths at the boundaries of the forms (regular <= 31, one extra
+    length byte, 16-bit length), on the first scanline and on a later one"""
+    out = []
+    col = [0x34, 0x12]
+    def order(kind, run, form):
+        code = {"bg": 0, "fg": 1, "fgbg": 2, "color": 3, "image": 4}.get(kind)
+        b = []
+        if kind in ("bg", "fg", "color", "image"):
+            if form == "mega": b = [0xf0 + code, run & 255, run >> 8]
+            elif form == "reg": b = [(code << 5) | run]
+            else: b = [code << 5, run - 32]
+            if kind == "color": b += col
+            if kind == "image": b += [x for i in range(run) for x in ((i * 5) % 256, (i * 3) % 256)]
+        elif kind in ("fgbg", "setfgbg"):
+            lite = kind == "setfgbg"
+            if form == "mega": b = [0xf7 if lite else 0xf2, run & 255, run >> 8]
+            elif form == "reg": b = [(0xd0 if lite else 0x40) | (run // 8)]
+            else: b = [0xd0 if lite else 0x40, run - 1]
+            if lite: b += col
+            b += [(0xa5 + i) % 256 for i in range((run + 7) // 8)]
+        elif kind == "setfg":
+            if form == "mega": b = [0xf6, run & 255, run >> 8]
+            elif form == "reg": b = [0xc0 | run]
+            else: b = [0xc0, run - 16]
+            b += col
+        elif kind == "dither":
+            pairs = run // 2
+            if form == "mega": b = [0xf8, pairs & 255, pairs >> 8]
+            elif form == "reg": b = [0xe0 | pairs]
+            else: b = [0xe0, pairs - 16]
+            b += col + [0xcd, 0xab]
+        return b
+    def forms(kind, run):
+        fs = ["mega"]
+        if kind in ("bg", "fg", "color", "image"):
+            if 1 <= run <= 31: fs.append("reg")
+            if 32 <= run <= 287: fs.append("ext")
+        elif kind in ("fgbg", "setfgbg"):
+            if run % 8 == 0 and 1 <= run // 8 <= (15 if kind == "setfgbg" else 31): fs.append("reg")
+            if 1 <= run <= 256: fs.append("ext")
+        elif kind == "setfg":
+            if 1 <= run <= 15: fs.append("reg")
+            if 16 <= run <= 271: fs.append("ext")
+        elif kind == "dither":
+            if run % 2 == 0 and 1 <= run // 2 <= 15: fs.append("reg")
+            if run % 2 == 0 and 16 <= run // 2 <= 271: fs.append("ext")
+        return fs
+    for kind in ("bg", "fg", "color", "image", "fgbg", "setfgbg", "setfg", "dither"):
+        for run in (1, 2, 7, 8, 9, 15, 16, 17, 24, 31, 32, 33, 40, 255, 256, 257, 271, 272, 287, 288, 300):
+            if kind == "image" and run > 40: continue
+            if kind == "dither" and run % 2: continue
+            for form in forms(kind, run):
+                o = order(kind, run, form)
+                out.append({"w": run, "h": 1, "bpp": 16, "comp": True, "data": o})                                 # on the first scanline
+                out.append({"w": run, "h": 2, "bpp": 16, "comp": True, "data": order("color", run, "mega") + o})   # on a later scanline
+    return out
+
+
 def expect(wd, cases, tag):
     """TLC evaluates Codec!Decompress on every case"""
     cin, cout = os.path.join(wd, tag + ".cases.ndjson"), os.path.join(wd, tag + ".expected.ndjson")
